@@ -168,6 +168,7 @@ func main() {
 			d.Sched.Explicit = res.Switches
 			if d.Prop == "C16" {
 				d.Sched.Policy = simrt.PolicyExplicit
+				d.Sched.Sweep = false // the replay is the one schedule that failed
 			}
 			_ = writeJSON(*descOut, d)
 		}
